@@ -441,6 +441,11 @@ def len_truth_norm(t):
                 m[x] = inner if not isinstance(inner, (Ref, Const)) else Op("truthy", inner)
             elif (x.op, c) in (("eq", 0), ("le", 0), ("lt", 1)):
                 m[x] = not_(inner if not isinstance(inner, (Ref, Const)) else Op("truthy", inner))
+        # x != '' / x == '' (x is a text there): the truth value of x as well
+        if isinstance(x, Op) and x.op in ("ne", "eq") and len(x.args) == 2:
+            for p_, q_ in ((x.args[0], x.args[1]), (x.args[1], x.args[0])):
+                if isinstance(q_, Const) and q_.v in ("", b"") and isinstance(q_.v, (str, bytes)) and not isinstance(p_, (Ref, Const)):
+                    m[x] = p_ if x.op == "ne" else not_(p_)
     t = subst(t, m) if m else t
 
     def cond(c):
